@@ -73,7 +73,7 @@ def attribute(run, line, verdict):
         return "C02+C11"          # resume_yield_to with the yielder's pool served by other streams
     if scn == "stacked":
         return "C06+C01"          # a unit of a stacked scheduler's pool is lost / the stream is not joinable
-    if scn == "xjoin":
+    if scn in ("xjoin", "privjoin"):
         return "C06"
     if scn == "cancelmix":
         return "C12+C03"          # cancellation while joining / being joined
@@ -187,7 +187,7 @@ def run_exec(pid, tier, seed, emphasis, scns=("exec",), pre=None):
             return False
         if scn in ("ryt", "ytrace") and (cfg != 4 or nes < 2):
             return False
-        if scn == "replace" and (cfg or nes):
+        if scn in ("replace", "privjoin") and (cfg or nes):
             return False
         return True
 
@@ -196,7 +196,7 @@ def run_exec(pid, tier, seed, emphasis, scns=("exec",), pre=None):
             for nes in (0, 1, 2):
                 if not applicable(scn, cfg, nes):
                     continue
-                mult = 6 if scn in ("ryt", "replace", "ytrace") else 1
+                mult = 6 if scn in ("ryt", "replace", "ytrace", "privjoin") else 1
                 if scn == "xjoin" and cfg in (2, 5):
                     mult = 8        # the waiting scheduler leaves its loop on other paths than the others (defect S4)
                 for off in range(0, n * mult, per):
